@@ -3,7 +3,7 @@ CONSTANTS
   Constructs = {"pp", "pfe", "worker", "map", "gen"}
   Ns = {3}
   Ks = {1}
-  FKinds = {"err", "wrapped", "panicErr", "panicStr", "panicOther", "skip", "eof", "abort", "ctx", "excl"}
+  FKinds = {"err", "wrapped", "panicErr", "panicStr", "panicOther", "skip", "eof", "abort", "ctx", "excl", "panicW_EOF", "panicW_SKIP", "panicW_CTX", "panicW_X", "panicW_ABORT"}
   MaxFaults = 1
   MaxFaultPos = 3
   OptSet <- OptsAll
